@@ -436,8 +436,14 @@ Section Steps.
                                          history cs (add_name_suffix s r) = history cs r.
   Proof. intros [H1 H2]. split; [split; assumption|reflexivity]. Qed.
 
+  (* one transformer: the history is unchanged or grows by one entry; kind and apiVersion stay *)
   Definition grows (r r' : resource) : Prop :=
-    history cs r' = history cs r \/ exists t, history cs r' = (history cs r ++ [t])%list.
+    (history cs r' = history cs r \/ exists t, history cs r' = (history cs r ++ [t])%list) /\
+    get_kind (r_node r') = get_kind (r_node r) /\
+    get_api_version (r_node r') = get_api_version (r_node r).
+
+  Lemma grows_refl r : grows r r.
+  Proof. split; [left; reflexivity|split; reflexivity]. Qed.
 
   (* common part of PrefixTransformer / SuffixTransformer *)
   Lemma affix_hist affix (add : string -> resource -> resource) (newv : string -> string) skip r r' :
@@ -453,7 +459,7 @@ Section Steps.
   Proof.
     intros Hadd0 Hadd Haddn Hgood Hid Hwf H.
     destruct (org_id cs r) as [org| | |]; cbn [bind] in H; try discriminate.
-    destruct (should_skip skip org); [inv H; split; [assumption|left; reflexivity]|].
+    destruct (should_skip skip org); [inv H; split; [assumption|apply grows_refl]|].
     cbn [affix_steps name_fs] in H.
     destruct (affix_step cs affix add newv org r (mkFs "" "" "" "metadata/name" false))
       as [r1| | |] eqn:Hs; cbn [bind] in H; try discriminate. inv H.
@@ -471,7 +477,7 @@ Section Steps.
       destruct (doc_name_update newv _ _ Hw Hg Hf) as (W & N1 & N2 & N3 & N4).
       rewrite (Hid eq_refl) in N1.
       destruct (update_same_id cs r n' (conj Hh Hw) W N1 N4 N2 N3) as [Wr Hr].
-      split; [exact Wr|left; exact Hr].
+      split; [exact Wr|]. split; [left; exact Hr|]. split; assumption.
     - destruct (Hadd r Hwf) as [Hwa Hha].
       destruct (fs_apply _ _ _ _ (r_node (store_previous_id cs (add affix r)))) as [n'| | |] eqn:Hf;
         cbn [bind] in Hs; try discriminate. inv Hs.
@@ -482,9 +488,10 @@ Section Steps.
       destruct (wf_node_good _ Hw) as (G1 & _).
       assert (Hg: good (newv (get_name (r_node r))) = true) by (apply Hgood; assumption).
       destruct (doc_name_update newv _ _ Hw Hg Hf) as (W & N1 & N2 & N3 & N4).
+      pose proof N2 as N2'. pose proof N3 as N3'.
       rewrite <- (Haddn r) in N2, N3.
       destruct (store_then_update cs (add affix r) n' Hwa W N2 N3) as [Wr Hr].
-      split; [exact Wr|]. right. eexists. rewrite <- Hha. exact Hr.
+      split; [exact Wr|]. split; [right; eexists; rewrite <- Hha; exact Hr|]. split; assumption.
   Qed.
 
   Lemma prefix_one_hist p r r' :
@@ -539,7 +546,7 @@ Section Steps.
     hash_one cs nonstr h r = Ok r' -> wf_res r' /\ grows r r'.
   Proof.
     intros Hh Hwf H. unfold hash_one in H.
-    destruct (r_needs_hash r); [|inv H; split; [assumption|left; reflexivity]].
+    destruct (r_needs_hash r); [|inv H; split; [assumption|apply grows_refl]].
     assert (Hnode: r_node (store_previous_id cs r) = r_node r)
       by (rewrite store_previous_id_eq; reflexivity).
     rewrite Hnode in H.
@@ -549,7 +556,7 @@ Section Steps.
     { apply good_app_r; [assumption|]. cbn [append no_char]. rewrite Hh. reflexivity. }
     destruct (set_name_spec _ _ _ Hw Hg Hs) as (W & N1 & N2 & N3 & N4).
     destruct (store_then_update cs r n' (conj Hho Hw) W N2 N3) as [Wr Hr].
-    split; [exact Wr|right; eexists; exact Hr].
+    split; [exact Wr|]. split; [right; eexists; exact Hr|]. split; assumption.
   Qed.
 
   (* ---------- namespace ---------- *)
@@ -673,7 +680,7 @@ Section Steps.
     destruct (ns_filter cs namespace_fs ns (r_node r)) as [n'| | |] eqn:Hf; cbn [bind] in H; try discriminate.
     inv H. destruct (ns_filter_wf _ _ _ Hw Hgood Hf) as (W & K & A).
     destruct (store_then_update cs r n' (conj Hh Hw) W K A) as [Wr Hr].
-    split; [exact Wr|right; eexists; exact Hr].
+    split; [exact Wr|]. split; [right; eexists; exact Hr|]. split; assumption.
   Qed.
 
   (* ================= any sequence of renaming transformers ================= *)
@@ -716,17 +723,21 @@ Section Steps.
     - eapply hash_one_hist; eauto.
   Qed.
 
-  (* The history of a resource only grows at its end, whatever renaming transformers run on it. *)
+  (* The history of a resource only grows at its end, whatever renaming transformers run on it;
+     kind and apiVersion are never touched. *)
   Theorem history_prefix l r r' :
     forallb step_ok l = true -> wf_res r -> apply_steps l r = Ok r' ->
-    wf_res r' /\ exists ext, history cs r' = (history cs r ++ ext)%list.
+    wf_res r' /\ (exists ext, history cs r' = (history cs r ++ ext)%list) /\
+    get_kind (r_node r') = get_kind (r_node r) /\
+    get_api_version (r_node r') = get_api_version (r_node r).
   Proof.
     revert r. induction l as [|st t IH]; intros r Hl Hw H; cbn [apply_steps] in H.
-    - inv H. split; [assumption|]. exists []. now rewrite app_nil_r.
+    - inv H. split; [assumption|]. split; [exists []; now rewrite app_nil_r|]. split; reflexivity.
     - cbn [forallb] in Hl. apply andb_true_iff in Hl as [Hs Ht].
       destruct (apply_step st r) as [r1| | |] eqn:H1; cbn [bind] in H; try discriminate.
-      destruct (apply_step_hist _ _ _ Hs Hw H1) as [W1 G1].
-      destruct (IH r1 Ht W1 H) as (W & ext & He). split; [assumption|].
+      destruct (apply_step_hist _ _ _ Hs Hw H1) as [W1 (G1 & K1 & A1)].
+      destruct (IH r1 Ht W1 H) as (W & (ext & He) & K & A). split; [assumption|].
+      split; [|split; congruence].
       destruct G1 as [G1|(t1 & G1)]; rewrite G1 in He.
       + eauto.
       + exists (t1 :: ext). rewrite He, <- app_assoc. reflexivity.
@@ -734,9 +745,27 @@ Section Steps.
 
   Definition triple_name (t : triple) : string := fst (fst t).
 
-  (* C03_history_inv: the ORIGINAL name stays findable.  For a resource that enters the build fresh (no
-     history yet), after any sequence of renaming transformers either nothing was recorded and the name
-     is still the original one, or the original name is the FIRST recorded previous name. *)
+  (* The ORIGINAL id stays findable.  For a resource that enters the build fresh (no history yet), after
+     any sequence of renaming transformers either nothing was recorded and the name is still the
+     original one, or the original (name, effective namespace, kind) is the FIRST recorded previous id. *)
+  Theorem history_first l r r' :
+    forallb step_ok l = true -> wf_res r -> ptriples r = [] -> apply_steps l r = Ok r' ->
+    exists p, prev_ids r' = Ok p /\
+      ((p = [] /\ get_name (r_node r') = get_name (r_node r)) \/
+       (exists id rest, p = id :: rest /\ id_triple id = cur_triple cs r)).
+  Proof.
+    intros Hl Hw Hfresh H.
+    destruct (history_prefix l r r' Hl Hw H) as ([Hh' Hw'] & (ext & He) & _ & _).
+    destruct (prev_ids_triples r' Hh') as (p & Hp & Hpt). exists p. split; [assumption|].
+    unfold history in He. rewrite Hfresh in He. cbn [app] in He.
+    destruct p as [|id rest].
+    - left. split; [reflexivity|]. cbn [map] in Hpt. rewrite <- Hpt in He. cbn [app] in He.
+      destruct ext; [|destruct ext; discriminate]. inv He. congruence.
+    - right. exists id, rest. split; [reflexivity|].
+      rewrite <- Hpt in He. cbn [map app] in He. apply (f_equal (@hd_error triple)) in He. cbn [hd_error] in He. congruence.
+  Qed.
+
+  (* C03_history_inv: the original NAME is the first recorded previous name *)
   Theorem history_inv l r r' :
     forallb step_ok l = true -> wf_res r -> ptriples r = [] -> apply_steps l r = Ok r' ->
     exists p, prev_ids r' = Ok p /\
@@ -744,13 +773,9 @@ Section Steps.
        (exists id rest, p = id :: rest /\ id_name id = get_name (r_node r))).
   Proof.
     intros Hl Hw Hfresh H.
-    destruct (history_prefix l r r' Hl Hw H) as ([Hh' Hw'] & ext & He).
-    destruct (prev_ids_triples r' Hh') as (p & Hp & Hpt). exists p. split; [assumption|].
-    unfold history in He. rewrite Hfresh in He. cbn [app] in He.
-    destruct p as [|id rest].
-    - left. split; [reflexivity|]. cbn [map] in Hpt. rewrite <- Hpt in He. cbn [app] in He.
-      destruct ext; [|destruct ext; discriminate]. inv He. congruence.
-    - right. exists id, rest. split; [reflexivity|].
-      rewrite <- Hpt in He. cbn [map app] in He. inv He. reflexivity.
+    destruct (history_first l r r' Hl Hw Hfresh H) as (p & Hp & [Hc|(id & rest & -> & Hid)]).
+    - exists p. auto.
+    - exists (id :: rest). split; [assumption|]. right. exists id, rest. split; [reflexivity|].
+      unfold id_triple, cur_triple in Hid. now inv Hid.
   Qed.
 End Steps.
